@@ -6,7 +6,7 @@ dst = f'/verif/seeded/{name}'
 os.makedirs(dst, exist_ok=True)
 shutil.copy(os.path.join(sd, 'patch.diff'), dst)
 meta = json.load(open(os.path.join(sd, 'meta.json')))
-for f in glob.glob(os.path.join(sd, '*.go')):
+for f in glob.glob(os.path.join(sd, '**', '*.go'), recursive=True):
     # demo files are stored with a .txt suffix so that no Go tool ever picks them up as part of a package
     shutil.copy(f, os.path.join(dst, os.path.basename(f) + '.txt'))
 meta['confirmed'] = {
